@@ -120,7 +120,7 @@ def gen(rng, tier):
                     st = v.to_bytes(BY, "little") * k + stream(rng, BY, 2) + b"\x00" * BY
                     for op in ("sample_single_inclusive", "uniform_new_inclusive", "gen_range_inclusive", "gen_range"):
                         yield f"{op} {s}{cfg} {hx(pat(lo, W))} {hx(pat(hi, W))} {st.hex()}", "rejection-run-%d" % k
-    reps = 60 if tier == "thorough" else 10
+    reps = 100 if tier == "thorough" else 50
     for cfg in cfgs(tier):
         w, n = wn(cfg)
         if n > 20:
